@@ -207,7 +207,7 @@ def group_level(ctx: Ctx, join_guard: bool = True) -> None:
     g = p.func(GROUP)
     sums = sums_of(ctx, g)
     notes = g.param_names()[0]
-    FILTER = f"filter(lambda _c0: _c0.note_type in include_note_types, {notes})"
+    FILTER = f"(_c0 for _c0 in {notes} if _c0.note_type in include_note_types)"
     JH = "join_heads_to_tails"
     SB = {m: f"same_beat_notes == SameBeatNotes.{m}" for m in ("KEEP_SEPARATE", "JOIN_ALL", "JOIN_BY_NOTE_TYPE")}
     # the stream that is grouped
